@@ -280,6 +280,13 @@ def build_pair_package(rng, gated: set):
             lines.append(f"    {en} = {rng.randint(1, 99)}\n")
         lines.append("\n")
         mods[mname] = "".join(lines)
+    # one module (and sometimes its package) is named like a Safe-DS keyword that is a legal Python identifier
+    kw = rng.choice(["schema", "static", "union", "internal", "pipeline", "annotation", "literal", "const", "private", "segment"])
+    if kw not in mods and len(mods) >= 2:
+        last = list(mods)[-1]
+        mods[kw] = mods.pop(last)
+        if rng.random() < 0.5:
+            sub = rng.choice(["sub", "package", "out"])
     files = {"src/pk/__init__.py": ""}
     placed = []
     for i, (mname, text) in enumerate(mods.items()):
